@@ -71,6 +71,10 @@ type Tr struct {
 	covers   []*Site
 	frames   int
 	sl       *slicer
+	privPkg  string
+	topFrame *Frame
+	topArgs  []Val
+	topBinds []Val
 }
 
 type allocInfo struct {
@@ -130,6 +134,13 @@ type Frame struct {
 	guard    string // extra guard for obligations (deferred conditional calls)
 	parent   *Frame
 	curIn    ssa.Instruction
+	// privacy rule for the call being translated: unexported fields of the verified function's own package are not
+	// written by code of other packages, except through closures passed to it (their static write summary)
+	privKeep        bool
+	privWrites      map[string]bool
+	loopPrivAll     bool
+	lastEffectHeaps []string
+	loopGhosts      map[int][]string
 }
 
 type backEdge struct {
@@ -388,7 +399,17 @@ func (tr *Tr) zeroVal(t types.Type) Val {
 
 func (tr *Tr) subRef(structT types.Type, field string, ref string) string {
 	f := tr.declareFun("sub/"+typeKey(structT)+"/"+field, []string{"Int"}, "Int")
-	return "(" + f + " " + ref + ")"
+	t := "(" + f + " " + ref + ")"
+	// embedded objects of different (type, field) or of different owners are different objects
+	key := "subax:" + t
+	if !tr.declared[key] && !strings.Contains(t, "!q") {
+		tr.declared[key] = true
+		sid := tr.declareFun("sub_id", []string{"Int"}, "Int")
+		sow := tr.declareFun("sub_owner", []string{"Int"}, "Int")
+		id := tr.eng.typeIDByKey("sub/" + typeKey(structT) + "/" + field)
+		tr.fact(fmt.Sprintf("(and (= (%s %s) %s) (= (%s %s) %s) (> %s 0))", sid, t, id, sow, t, ref, t))
+	}
+	return t
 }
 
 func (tr *Tr) elemRef(base, idx string) string {
@@ -579,6 +600,7 @@ func (tr *Tr) newFrame(fn *ssa.Function, parent *Frame) *Frame {
 		tr: tr, fn: fn, vals: map[ssa.Value]Val{}, out: map[[2]int]PP{}, blockPP: map[int]PP{},
 		allocs: map[*ssa.Alloc]*allocInfo{}, loops: map[int]*loopInfo{}, callOrd: map[string]int{},
 		callName: map[ssa.Instruction]string{}, act: tr.frames, params: map[string]Val{}, backPP: map[int][]backEdge{},
+		loopGhosts: map[int][]string{},
 	}
 	if parent != nil {
 		f.parent = parent
@@ -770,7 +792,7 @@ func (f *Frame) escapeWalk(ai *allocInfo, v ssa.Value, seen map[ssa.Value]bool) 
 					}
 				}
 			}
-			if !private {
+			if !private && closureMayWriteBinding(x, v) {
 				ai.escapes = append(ai.escapes, x)
 			}
 		case *ssa.Call:
@@ -873,6 +895,9 @@ func (f *Frame) havocHeaps(names []string, all bool, at ssa.Instruction, why str
 		// every heap known so far, in any state
 		for k := range tr.sorts {
 			if isGhostName(k) || isFlagName(k) || tr.eng.immutableHeap(k) {
+				continue
+			}
+			if f.privKeep && tr.isPrivateHeap(k) && !f.privWrites[k] {
 				continue
 			}
 			names = append(names, k)
@@ -1101,6 +1126,7 @@ func (f *Frame) loopWrites(li *loopInfo) (names map[string]bool, all bool, ghost
 	names = map[string]bool{}
 	ghosts = map[string]bool{}
 	tr := f.tr
+	f.loopPrivAll = false
 	for _, b := range f.fn.Blocks {
 		if !li.body[b.Index] {
 			continue
@@ -1121,9 +1147,16 @@ func (f *Frame) loopWrites(li *loopInfo) (names map[string]bool, all bool, ghost
 			case *ssa.MapUpdate:
 				all = true
 			case *ssa.Call:
-				a, g, ag := f.callEffects(&x.Call)
+				a, g, ag, pa := f.callEffects(&x.Call)
+				if pa {
+					f.loopPrivAll = true
+				}
 				if a == nil {
 					all = true
+					// explicit heaps (closure writes, stores) are still reported
+					for _, n := range f.lastEffectHeaps {
+						names[n] = true
+					}
 				} else {
 					for _, n := range a {
 						names[n] = true
@@ -1137,9 +1170,11 @@ func (f *Frame) loopWrites(li *loopInfo) (names map[string]bool, all bool, ghost
 				}
 			case *ssa.Go, *ssa.Defer, *ssa.Send, *ssa.Select:
 				all = true
+				f.loopPrivAll = true
 			case *ssa.RunDefers:
 				all = true
 				allGhost = true
+				f.loopPrivAll = true
 			}
 		}
 	}
@@ -1228,6 +1263,9 @@ func (f *Frame) enterLoop(li *loopInfo) {
 		hn = nil
 		for k := range tr.sorts {
 			if !isGhostName(k) && !isFlagName(k) && !tr.eng.immutableHeap(k) {
+				if tr.isPrivateHeap(k) && !f.loopPrivAll && !names[k] {
+					continue
+				}
 				hn = append(hn, k)
 			}
 		}
@@ -1296,10 +1334,18 @@ func (f *Frame) enterLoop(li *loopInfo) {
 		if gd == nil {
 			continue
 		}
+		// automatic ghost-frame invariant: outside the keys the function may modify, the ghost equals its entry value
+		if t := tr.ghostFrameTerm(g, st); t != "" {
+			f.addSite(gd.Prop, fmt.Sprintf("loop%d.ghostframe.%s", li.ordinal, g), "invariant", "ghost "+g+" unchanged outside the function's modifies", "entry", sAnd(f.cur.R, sNot(t)))
+		}
 		srt := ghostSort(gd.Sort)
 		tr.stateGet(st, "G/"+g, srt)
 		st.H["G/"+g] = tr.freshConst("lg/"+g, srt)
+		if t := tr.ghostFrameTerm(g, st); t != "" {
+			f.assume(t)
+		}
 	}
+	f.loopGhosts[li.header.Index] = gl
 	// defer flags set inside the loop are rejected elsewhere
 	for _, in := range b.Instrs {
 		phi, ok := in.(*ssa.Phi)
@@ -1324,6 +1370,15 @@ func (f *Frame) enterLoop(li *loopInfo) {
 // closeLoop is called when a back edge is taken: check invariant preservation.
 func (f *Frame) closeLoop(li *loopInfo, from *ssa.BasicBlock) {
 	tr := f.tr
+	for _, g := range f.loopGhosts[li.header.Index] {
+		gd := tr.eng.db.Ghosts[g]
+		if gd == nil {
+			continue
+		}
+		if t := tr.ghostFrameTerm(g, f.cur.St); t != "" {
+			f.addSite(gd.Prop, fmt.Sprintf("loop%d.ghostframe.%s", li.ordinal, g), "invariant", "ghost "+g+" unchanged outside the function's modifies", fmt.Sprintf("preserve@b%d", from.Index), sAnd(f.cur.R, sNot(t)))
+		}
+	}
 	if f.contract == nil {
 		return
 	}
@@ -1816,4 +1871,110 @@ func safetyEnabled(c *Contract, label string) bool {
 		return has("div")
 	}
 	return true
+}
+
+// isPrivateHeap: field heap of an unexported field of a named struct type declared in the package of the function
+// under verification.
+func (tr *Tr) isPrivateHeap(k string) bool {
+	if tr.privPkg == "" || !strings.HasPrefix(k, "F/"+tr.privPkg+".") {
+		return false
+	}
+	rest := k[len("F/"+tr.privPkg+"."):]
+	i := strings.Index(rest, "/")
+	if i < 0 || strings.Contains(rest[:i], "/") {
+		return false
+	}
+	field := rest[i+1:]
+	return len(field) > 0 && field[0] >= 'a' && field[0] <= 'z'
+}
+
+// closureMayWriteBinding: can the closure (or closures it creates) write through, or leak, the captured cell v?
+func closureMayWriteBinding(mc *ssa.MakeClosure, v ssa.Value) bool {
+	fn, ok := mc.Fn.(*ssa.Function)
+	if !ok {
+		return true
+	}
+	for i, b := range mc.Bindings {
+		if b != v {
+			continue
+		}
+		if i >= len(fn.FreeVars) {
+			return true
+		}
+		if freeVarMayBeWritten(fn.FreeVars[i], 0) {
+			return true
+		}
+	}
+	return false
+}
+
+func freeVarMayBeWritten(fv ssa.Value, depth int) bool {
+	if depth > 4 {
+		return true
+	}
+	refs := fv.Referrers()
+	if refs == nil {
+		return false
+	}
+	for _, r := range *refs {
+		switch x := r.(type) {
+		case *ssa.UnOp: // load
+		case *ssa.DebugRef:
+		case *ssa.MakeClosure:
+			inner, ok := x.Fn.(*ssa.Function)
+			if !ok {
+				return true
+			}
+			for i, b := range x.Bindings {
+				if b == fv {
+					if i >= len(inner.FreeVars) || freeVarMayBeWritten(inner.FreeVars[i], depth+1) {
+						return true
+					}
+				}
+			}
+		default:
+			return true
+		}
+	}
+	return false
+}
+
+// ghostFrameTerm: "ghost g in state st equals its entry value outside the keys listed in the top contract's modifies";
+// "" when the contract lets the function modify g entirely.
+func (tr *Tr) ghostFrameTerm(g string, st *State) string {
+	c := tr.contract
+	gd := tr.eng.db.Ghosts[g]
+	if c == nil || gd == nil || tr.topFrame == nil {
+		return ""
+	}
+	var keys []*Expr
+	for _, m := range c.Modifies {
+		if strings.HasPrefix(m, "F/") || strings.HasPrefix(m, "C/") {
+			continue
+		}
+		ex, err := ParseExpr(m)
+		if err != nil {
+			continue
+		}
+		if ex.K == EIdent && ex.Name == g {
+			return ""
+		}
+		if ex.K == EIndex && ex.A.K == EIdent && ex.A.Name == g {
+			keys = append(keys, ex.Bx)
+		}
+	}
+	srt := ghostSort(gd.Sort)
+	initT := tr.stateGet(tr.init, "G/"+g, srt)
+	cur := tr.stateGet(st, "G/"+g, srt)
+	allowed := initT
+	env := tr.topFrame.contractEnvTop(c, tr.topArgs, tr.topBinds, nil)
+	env.cur = tr.init
+	for _, k := range keys {
+		kv, err := env.expr(k)
+		if err != nil {
+			return ""
+		}
+		allowed = sSto(allowed, kv.T, sSel(cur, kv.T))
+	}
+	return sEq(cur, allowed)
 }
